@@ -102,12 +102,7 @@ fn generate_variables_struct(
                 let value = graphql_parser_value_to_literal(
                     default,
                     variable.r#type.id,
-                    variable
-                        .r#type
-                        .qualifiers
-                        .first()
-                        .map(|qual| !qual.is_required())
-                        .unwrap_or(true),
+                    &variable.r#type.qualifiers,
                     options,
                     query,
                 );
@@ -256,7 +251,7 @@ fn generate_fragment_definitions<'a>(
 fn graphql_parser_value_to_literal<'doc, T>(
     value: &graphql_parser::query::Value<'doc, T>,
     ty: TypeId,
-    is_optional: bool,
+    qualifiers: &[GraphqlTypeQualifier],
     options: &GraphQLClientCodegenOptions,
     query: &BoundQuery<'_>,
 ) -> TokenStream
@@ -265,6 +260,17 @@ where
     T::Value: quote::ToTokens,
 {
     use graphql_parser::query::Value;
+
+    // The outermost qualifier decides whether the literal is wrapped in `Some`; what follows a list
+    // qualifier describes the elements of the list.
+    let (is_optional, qualifiers) = match qualifiers.split_first() {
+        Some((GraphqlTypeQualifier::Required, rest)) => (false, rest),
+        _ => (true, qualifiers),
+    };
+    let element_qualifiers = match qualifiers.split_first() {
+        Some((GraphqlTypeQualifier::List, rest)) => rest,
+        _ => qualifiers,
+    };
 
     let inner = match value {
         Value::Boolean(b) => {
@@ -297,7 +303,7 @@ where
         Value::List(inner) => {
             let elements = inner
                 .iter()
-                .map(|val| graphql_parser_value_to_literal(val, ty, false, options, query));
+                .map(|val| graphql_parser_value_to_literal(val, ty, element_qualifiers, options, query));
             quote! {
                 vec![
                     #(#elements,)*
@@ -359,7 +365,11 @@ where
                     shared::keyword_replace(name.to_upper_camel_case()).as_ref(),
                     Span::call_site(),
                 );
-                let value = graphql_parser_value_to_literal(value, r#type.id, false, options, query);
+                // The variant holds the member's type without its outer `Option` (see inputs.rs).
+                let mut qualifiers = vec![GraphqlTypeQualifier::Required];
+                qualifiers.extend(r#type.qualifiers.iter().cloned());
+                let value =
+                    graphql_parser_value_to_literal(value, r#type.id, &qualifiers, options, query);
                 if is_boxed(r#type.id) {
                     quote!(#constructor::#variant(Box::new(#value)))
                 } else {
@@ -386,7 +396,7 @@ where
                 Some(default_value) => graphql_parser_value_to_literal(
                     default_value,
                     r#type.id,
-                    r#type.is_optional(),
+                    &r#type.qualifiers,
                     options,
                     query,
                 ),
